@@ -1,9 +1,15 @@
-//! Counting global allocator. Disabled (feature `noledger`) in sanitizer / valgrind / Miri builds,
+//! Counting and poisoning global allocator: every block is overwritten with 0xDD before it goes
+//! back to the system allocator, so that a read through a dangling pointer sees bytes that cannot
+//! be mistaken for the JSON text, string or node that used to live there (the oracles compare
+//! contents, they cannot see addresses). Growing reallocations move by hand for the same reason. Disabled (feature `noledger`) in sanitizer / valgrind / Miri builds,
 //! where address-remembering wrappers would hide leaks from the tool.
 use std::alloc::{GlobalAlloc, Layout, System};
 use std::sync::atomic::{AtomicI64, AtomicU64, Ordering::Relaxed};
 
 pub struct Ledger;
+
+pub const POISON: u8 = 0xDD;
+const MOVE_BY_HAND: usize = 1 << 16;
 
 pub static LIVE_BLOCKS: AtomicI64 = AtomicI64::new(0);
 pub static LIVE_BYTES: AtomicI64 = AtomicI64::new(0);
@@ -24,6 +30,7 @@ unsafe impl GlobalAlloc for Ledger {
         LIVE_BLOCKS.fetch_sub(1, Relaxed);
         LIVE_BYTES.fetch_sub(l.size() as i64, Relaxed);
         FREES.fetch_add(1, Relaxed);
+        std::ptr::write_bytes(p, POISON, l.size());
         System.dealloc(p, l)
     }
     unsafe fn alloc_zeroed(&self, l: Layout) -> *mut u8 {
@@ -36,6 +43,17 @@ unsafe impl GlobalAlloc for Ledger {
         p
     }
     unsafe fn realloc(&self, p: *mut u8, l: Layout, new: usize) -> *mut u8 {
+        if l.size() <= MOVE_BY_HAND {
+            // move by hand so that the old block is poisoned too
+            let q = System.alloc(Layout::from_size_align_unchecked(new, l.align()));
+            if !q.is_null() {
+                std::ptr::copy_nonoverlapping(p, q, l.size().min(new));
+                std::ptr::write_bytes(p, POISON, l.size());
+                System.dealloc(p, l);
+                LIVE_BYTES.fetch_add(new as i64 - l.size() as i64, Relaxed);
+            }
+            return q;
+        }
         let q = System.realloc(p, l, new);
         if !q.is_null() {
             LIVE_BYTES.fetch_add(new as i64 - l.size() as i64, Relaxed);
